@@ -392,8 +392,11 @@ func constructEd25519Key(data []byte) (types.SigningPublicKey, error) {
 			KEYCERT_SIGN_ED25519_SIZE, len(data))
 	}
 
-	// Create Ed25519PublicKey from the bytes using safe constructor
-	ed25519_key, err := ed25519.NewEd25519PublicKey(data)
+	// Create Ed25519PublicKey from a copy of the bytes: the key type wraps the slice it
+	// is given, and data usually points into the caller's parse buffer.
+	keyBytes := make([]byte, len(data))
+	copy(keyBytes, data)
+	ed25519_key, err := ed25519.NewEd25519PublicKey(keyBytes)
 	if err != nil {
 		return nil, oops.Wrapf(err, "failed to construct Ed25519 public key")
 	}
@@ -411,8 +414,10 @@ func constructEd25519PHKey(data []byte) (types.SigningPublicKey, error) {
 			KEYCERT_SIGN_ED25519PH_SIZE, len(data))
 	}
 
-	// Create Ed25519PublicKey from the bytes using safe constructor
-	ed25519ph_key, err := ed25519.NewEd25519PublicKey(data)
+	// Create Ed25519PublicKey from a copy of the bytes (see constructEd25519Key)
+	keyBytes := make([]byte, len(data))
+	copy(keyBytes, data)
+	ed25519ph_key, err := ed25519.NewEd25519PublicKey(keyBytes)
 	if err != nil {
 		return nil, oops.Wrapf(err, "failed to construct Ed25519ph public key")
 	}
